@@ -39,7 +39,8 @@ func c05get(idx int) c05case {
 	case slot == nspec:
 		return c05case{Kind: "unknown", Req: grammar.Unknown(r, tok), DB: db}
 	case slot == nspec+1:
-		name := rng.Pick(r, []string{"VERIFCMD", "verifcmd", "VerifCmd", "vErIfCmD"})
+		// two application executors: one registered under an upper-case name, one under a mixed-case name
+		name := rng.Pick(r, []string{"VERIFCMD", "verifcmd", "VerifCmd", "vErIfCmD", "VERIFMIXED", "verifmixed", "VerifMixed", "vErIfMiXeD"})
 		args := []string{name}
 		for i := 0; i < r.Intn(5); i++ {
 			args = append(args, string(gen.BulkPayload(r, 30)))
@@ -108,7 +109,7 @@ func c05run(idx int) run.Result {
 	srv := newServer(rec)
 	var customSeen []string
 	var customDB = -1
-	srv.RegisterExexutor("VERIFCMD", func(conn *redis.Conn, cmd string, args redis.Arguments) (*redis.Message, error) {
+	custom := func(conn *redis.Conn, cmd string, args redis.Arguments) (*redis.Message, error) {
 		customSeen = []string{cmd}
 		customDB = conn.Database()
 		for {
@@ -120,7 +121,9 @@ func c05run(idx int) run.Result {
 			customSeen = append(customSeen, string(b))
 		}
 		return redis.NewStringArrayMessage(customSeen), nil
-	})
+	}
+	srv.RegisterExexutor("VERIFCMD", custom)
+	srv.RegisterExexutor("VerifMixed", custom)
 	reqs := []resp.Value{resp.Cmd("SELECT", fmt.Sprint(c.DB)), c.Req}
 	stream, ends := encodeReqs(reqs)
 	before := time.Now()
